@@ -3,6 +3,7 @@ package main
 import (
 	"fmt"
 	"go/ast"
+	"go/printer"
 	"go/constant"
 	"go/token"
 	"go/types"
@@ -565,6 +566,10 @@ func (c *Ctx) src(n ast.Node) string {
 	}
 	if e, ok := n.(ast.Expr); ok {
 		return types.ExprString(e)
+	}
+	var sb strings.Builder
+	if err := printer.Fprint(&sb, c.Fset, n); err == nil && sb.Len() > 0 && sb.Len() < 200 && !strings.Contains(sb.String(), "\n") {
+		return sb.String()
 	}
 	return fmt.Sprintf("%T", n)
 }
